@@ -568,6 +568,21 @@ class _SubstPure(ast.NodeTransformer):
     def __init__(self, env):
         self.env = env
 
+    def _scoped(self, n, bound):
+        # names bound by a comprehension / lambda shadow the function's locals inside it
+        inner = {k: v for k, v in self.env.items() if k not in bound}
+        if len(inner) == len(self.env):
+            return self.generic_visit(n)
+        return _SubstPure(inner).generic_visit(n)
+
+    def visit_ListComp(self, n):
+        return self._scoped(n, {x.id for g in n.generators for x in ast.walk(g.target) if isinstance(x, ast.Name)})
+
+    visit_SetComp = visit_GeneratorExp = visit_DictComp = visit_ListComp
+
+    def visit_Lambda(self, n):
+        return self._scoped(n, {a.arg for a in n.args.args + n.args.kwonlyargs + n.args.posonlyargs})
+
     def visit_Name(self, n):
         if isinstance(n.ctx, ast.Load) and n.id in self.env:
             import copy
